@@ -1,0 +1,10 @@
+//go:build verif
+
+package commands
+
+// Exports of the attribute-pattern escaping used by `git lfs track` and
+// `git lfs untrack` for the verification harness.
+
+func VerifEscapeGlobCharacters(s string) string { return escapeGlobCharacters(s) }
+func VerifEscapeAttrPattern(s string) string    { return escapeAttrPattern(s) }
+func VerifUnescapeAttrPattern(s string) string  { return unescapeAttrPattern(s) }
